@@ -16,6 +16,7 @@ RULE = ("cases = regular-expression programs generated from a grammar (literals/
 ASSUMPTIONS = ["inline flags, \\b/\\B and anchors in the middle are outside both lists of the property and are not generated",
                "a negated class is only generated when at least one printable candidate remains"]
 CASE_TIMEOUT = 6
+REACH_FILES = ['d42/generation/_regex_generator.py']
 TIERS = {"quick": dict(shards=16, cases=6000), "thorough": dict(shards=16, cases=90000)}
 
 
